@@ -377,7 +377,7 @@ var c14Profile = &sim.Profile{
 func init() {
 	register(&Check{
 		ID: "C14", Level: "exploration",
-		Rule:  "interleaved OAuth2 starts and callbacks over 3 browsers x 2 providers; state strings: the session's own, empty, prefix, extended, case-flipped, another browser's, spent, garbage; codes: valid, bogus, minted by the other provider, provider error; provider-reported uids from a hostile corpus (';', ';;', 'oauth2;;alpha;;x', NUL, non-ASCII, 4 KB, blank). The fake provider's tables are the ground truth of which identity was reported. Oracle: a callback touches users or sets uid only if its state equals the value issued to THIS browser by a start request and not yet matched; a matching callback leaves no state behind; on success uid == Make(provider-of-callback, reported uid) and the stored user carries that pair; provider errors and failed exchanges log nobody in. Plus the library's own Google/Facebook FindUserDetails functions against a 'me' endpoint reporting ids as strings and as bare JSON numbers (incl. neighbours beyond 2^53): what is not refused is exactly the reported id; after every complete answer three partial ones (the provider's JSON error document, a name-only and an id-only profile): absent members come out absent, never as the previous answer's. Plus a codec sweep: generated (provider,uid) pairs (provider from [a-z0-9_-]+) never collide and Parse(Make()) never yields a different pair. Odd units run a second, directed history in which a start request carries pass-along parameters named uid / email / name of ANOTHER identity before an own valid callback. distinct_nontrivial = distinct (state class, code class, session state, uid class, error-handler kind, uid outcome, diff size) signatures.",
+		Rule:  "interleaved OAuth2 starts and callbacks over 3 browsers x 2 providers; state strings: the session's own, empty, prefix, extended, case-flipped, another browser's, spent, garbage; codes: valid, bogus, minted by the other provider, provider error; provider-reported uids from a hostile corpus (';', ';;', 'oauth2;;alpha;;x', NUL, non-ASCII, 4 KB, blank). The fake provider's tables are the ground truth of which identity was reported. Oracle: a callback touches users or sets uid only if its state equals the value issued to THIS browser by a start request and not yet matched; a matching callback leaves no state behind; on success uid == Make(provider-of-callback, reported uid) and the stored user carries that pair; provider errors and failed exchanges log nobody in. Plus the library's own Google/Facebook FindUserDetails functions against a 'me' endpoint reporting ids as strings and as bare JSON numbers (incl. neighbours beyond 2^53): what is not refused is exactly the reported id; after every complete answer three partial ones (the provider's JSON error document, a name-only and an id-only profile): absent members come out absent, never as the previous answer's. Plus a codec sweep: generated (provider,uid) pairs (provider from [a-z0-9_-]+) never collide and Parse(Make()) never yields a different pair. Odd units run a second, directed history in which a start request carries pass-along parameters named uid / email / name of ANOTHER identity before an own valid callback. A callback that logs nobody in (declined at the provider, code refused) leaves the half-authentication mark of a remembered session alone. distinct_nontrivial = distinct (state class, code class, session state, uid class, error-handler kind, uid outcome, diff size) signatures.",
 		Units: func(t string) int { return tierN(t, 640, 30000) },
 		Run: func(c *RunCtx, unit int) {
 			r := Rng(c.Seed, "C14", unit)
